@@ -66,8 +66,7 @@ func runC10(c *Ctx, d c10Desc) {
 		return
 	}
 	defer w.Close()
-	hk := NewHookCtl(w.E.Log)
-	defer hk.ReleaseAll()
+	hk := w.Hk
 
 	// runtime: puppet in generation 1 (driver-controlled), autonomous afterwards
 	w.RtPlan = func(gen int, p *vh.Proc) vh.ExecPlan {
